@@ -523,6 +523,8 @@ def oracle_c12(case, run: Run):
 
 SMALL = [b"", b"a", b"ab\ncd", b"hello world", bytes(range(20)), b"aaaaaaaabb\n\nxyz"]
 TAIL = ["rd~", "rd3", "r13"]
+LINE_BODIES = [b"a\nb\ncd\nef\n", b"alpha beta\ngamma\ndelta\nepsilon\nzeta", b"ab\ncd", b"\n\nx\n", b"x\n" * 4, b"no newline",
+               b"ab\n\ncd\n\n", b"\n"]
 
 
 def big_payload(rng, n):
@@ -670,6 +672,13 @@ class C12(Prop):
             yield self.random_case(rng)
 
     def exhaustive_cases(self, rng, deep):
+        # --- line iteration over pieces whose boundaries fall before / on / after a line end (first: cheap,
+        # and a run cut short by its time budget must still have seen them)
+        for p in LINE_BODIES:
+            for csz in [(1,), (2,), (3,), (1, 2), (2, 3, 1), (4,), (5, 2), (7,)]:
+                for coding in ("identity", "gzs"):
+                    yield make_case(p, coding, "chunked", rng.choice([1, 3, 0]), True, ["it"] + TAIL, rng, 1, (), csz,
+                                    kind="whole:it-lines")
         # --- exhaustive short call sequences on small bodies
         framings = ["cl", "chunked", "close"]
         combos = []
